@@ -39,51 +39,73 @@ theorem fieldSet_bits (r : Reg) (f : Field) (v : Nat) (raw : Bool) (h : RegWF r)
       ∀ k, r'.value.testBit k =
         if f.offset ≤ k ∧ k < f.offset + f.width then (v >>> f.shift).testBit (k - f.offset)
         else r.value.testBit k := by
-  sorry
+  refine ⟨_, fieldSet_plain_ok r f v raw h.plain h.norev h.bound hin hv, rfl, rfl, ?_⟩
+  intro k
+  exact testBit_insertBits _ _ _ _ _
 
 /-- a field reads the value just written to it -/
 theorem field_get_set (r : Reg) (f : Field) (v : Nat) (raw : Bool) (h : RegWF r)
     (hin : f.offset + f.width ≤ r.width) (hv : v >>> f.shift < 2 ^ f.width) :
     ∃ r', fieldSet r f v raw false = .ok r' ∧ fieldGet r' f = .ok (stored f v) := by
-  sorry
+  refine ⟨_, fieldSet_plain_ok r f v raw h.plain h.norev h.bound hin hv, ?_⟩
+  rw [fieldGet_plain_upd r f _ h.plain h.norev]
+  simp only [stored]
+  rw [slice_insertBits_same _ _ _ _ hv]
 
 /-- … and never disturbs a disjoint neighbour -/
 theorem field_frame (r : Reg) (f g : Field) (v : Nat) (raw : Bool) (h : RegWF r)
     (hin : f.offset + f.width ≤ r.width) (hd : FieldsDisjoint f g) (r' : Reg)
     (hs : fieldSet r f v raw false = .ok r') :
     fieldGet r' g = fieldGet r g := by
-  sorry
+  obtain ⟨_, _, rfl⟩ := fieldSet_plain_inv r r' f v raw h.plain h.norev hs
+  rw [fieldGet_plain_upd r g _ h.plain h.norev, fieldGet_plain r g h.plain h.norev]
+  rw [slice_insertBits_disjoint _ _ _ _ _ _ hd]
 
 /-- a value that does not fit is rejected with an SPSDK error (no silent truncation), whatever the register -/
 theorem field_reject (r : Reg) (f : Field) (v : Nat) (raw : Bool) (hv : 2 ^ f.width ≤ v >>> f.shift) :
     fieldSet r f v raw false = .error .spsdk := by
-  sorry
+  exact fieldSet_reject r f v raw hv
 
 /-- well-formedness is preserved by field writes -/
 theorem fieldSet_wf (r : Reg) (f : Field) (v : Nat) (raw : Bool) (h : RegWF r)
     (hin : f.offset + f.width ≤ r.width) (r' : Reg) (hs : fieldSet r f v raw false = .ok r') : RegWF r' := by
-  sorry
+  obtain ⟨_, hb, rfl⟩ := fieldSet_plain_inv r r' f v raw h.plain h.norev hs
+  exact ⟨h.plain, h.norev, hb, h.fieldsIn, h.disjoint⟩
 
 /-! ## whole-register writes, reversed byte order, grouped registers -/
 
 theorem reg_reject (r : Reg) (v : Nat) (raw : Bool) (hv : 2 ^ r.width ≤ v) : r.set v raw = .error .spsdk := by
-  sorry
+  exact set_reject r v raw hv
 
 /-- byte reversal is an involution on values that fit -/
 theorem brev_invol (w v : Nat) (h8 : w % 8 = 0) (hv : v < 2 ^ w) :
     ∃ x, brev w v = some x ∧ x < 2 ^ w ∧ brev w x = some v := by
-  sorry
+  exact brev_invol' w v h8 hv
 
 /-- a plain register (reversed byte order or not) reads back the value written, in the view it was written in -/
 theorem reg_set_get (r : Reg) (v : Nat) (raw : Bool) (hp : r.subW = 0) (h8 : r.width % 8 = 0) (hv : v < 2 ^ r.width) :
     ∃ r', r.set v raw = .ok r' ∧ r'.get raw = .ok v := by
-  sorry
+  have hg := isGroup_false r hp
+  have hnv : ¬ (v ≥ 2 ^ r.width) := by omega
+  obtain ⟨x, hx1, hx2, hx3⟩ := brev_invol' r.width v h8 hv
+  by_cases hc : (!raw && r.reverse) = true
+  · refine ⟨{ r with value := x }, ?_, ?_⟩
+    · simp [Reg.set, hg, hnv, hc, hx1]
+    · have hc' : (!raw && r.reverse) = true := hc
+      simp [Reg.get, Reg.isGroup, hp, hc', hx3]
+  · have hc' : (!raw && r.reverse) = false := by simpa using hc
+    refine ⟨{ r with value := v }, ?_, ?_⟩
+    · simp [Reg.set, hg, hnv, hc']
+    · simp [Reg.get, Reg.isGroup, hp, hc']
 
 /-- the processed and the raw view of a reversed register are byte reversals of each other -/
 theorem reg_views_consistent (r : Reg) (hp : r.subW = 0) (hr : r.reverse = true) (h8 : r.width % 8 = 0)
     (hb : r.value < 2 ^ r.width) :
     ∃ x y, r.get true = .ok x ∧ r.get false = .ok y ∧ brev r.width x = some y := by
-  sorry
+  obtain ⟨y, hy1, _, _⟩ := brev_invol' r.width r.value h8 hb
+  refine ⟨r.value, y, ?_, ?_, hy1⟩
+  · simp [Reg.get, isGroup_false r hp]
+  · simp [Reg.get, isGroup_false r hp, hr, hy1]
 
 /-- a grouped register of `n` sub-registers of `subW` bits -/
 structure GroupWF (r : Reg) : Prop where
@@ -94,18 +116,32 @@ structure GroupWF (r : Reg) : Prop where
 
 /-- the group view is, by definition, the assembly of the sub-register views (normal or reversed order) -/
 theorem group_consistent (r : Reg) (h : GroupWF r) : r.get true = .ok (assemble r) := by
-  sorry
+  simp [Reg.get, isGroup_true r h.sub]
 
 /-- writing the group distributes the value so that the group reads it back, and every sub-register holds its slice -/
 theorem group_set_get (r : Reg) (v : Nat) (raw : Bool) (h : GroupWF r) (hv : v < 2 ^ r.width) :
     ∃ r', r.set v raw = .ok r' ∧ r'.get raw = .ok v ∧ GroupWF r' := by
-  sorry
+  have wf' : ∀ x, GroupWF { r with subs := distribute r x } := fun x =>
+    ⟨h.sub, by simp only [distribute_length]; exact h.width, distribute_bound r x h.width h.sub, h.bytes⟩
+  cases hc : (!raw && r.reverse) with
+  | true =>
+    obtain ⟨x, hx1, hx2, hx3⟩ := brev_invol' r.width v h.bytes hv
+    refine ⟨_, set_group_rev r v x raw h.sub hv hc hx1, ?_, wf' x⟩
+    have hc' : (!raw && r.reverse) = true := hc
+    simp [Reg.get, Reg.isGroup, Nat.ne_of_gt h.sub, hc', assemble_distribute r x h.width h.sub hx2, hx3]
+  | false =>
+    refine ⟨_, set_group_norev r v raw h.sub hv hc, ?_, wf' v⟩
+    have hc' : (!raw && r.reverse) = false := hc
+    simp [Reg.get, Reg.isGroup, Nat.ne_of_gt h.sub, hc', assemble_distribute r v h.width h.sub hv]
 
 /-- non-reversed order: sub-register `i` holds bits `[i*subW, (i+1)*subW)` of the raw group value -/
 theorem group_sub_slice (r : Reg) (v : Nat) (h : GroupWF r) (hn : r.revSubs = false) (hv : v < 2 ^ r.width)
     (i : Nat) (hi : i < r.subs.length) :
     ∃ r', r.set v true = .ok r' ∧ r'.subs[i]? = some ((v >>> (i * r.subW)) % 2 ^ r.subW) := by
-  sorry
+  refine ⟨_, set_group r v h.sub hv, ?_⟩
+  simp only []
+  rw [distribute_getElem? r v i h.width h.sub hi]
+  simp [subPos, hn, mask]
 
 /-! ## histories: any op sequence keeps the file well-formed, and a field keeps the last value
     written to it as long as no later op writes its bits -/
@@ -119,11 +155,26 @@ def layoutOf (rf : RegFile) : List (Nat × List Field) := rf.map (fun r => (r.wi
 
 theorem step_wf (rf rf' : RegFile) (op : Op) (h : FileWF rf) (hs : step rf op = .ok rf') :
     FileWF rf' ∧ layoutOf rf' = layoutOf rf := by
-  sorry
+  have hf := step_forall2 rf rf' op hs
+  refine forall2_preserve (P := RegWF) (key := fun r => (r.width, r.fields)) hf h ?_
+  intro r r' hw hst
+  obtain ⟨x, hx, rfl⟩ := regStep_plain r r' hst hw.plain hw.norev hw.bound
+  exact ⟨⟨hw.plain, hw.norev, hx, hw.fieldsIn, hw.disjoint⟩, rfl⟩
 
 theorem run_wf (rf : RegFile) (ops : List Op) (h : FileWF rf) :
     FileWF (run rf ops) ∧ layoutOf (run rf ops) = layoutOf rf := by
-  sorry
+  induction ops generalizing rf with
+  | nil => exact ⟨h, rfl⟩
+  | cons op ops ih =>
+    have e : run rf (op :: ops) = run (match step rf op with | .ok s' => s' | .error _ => rf) ops := by
+      simp [run]
+    rw [e]
+    cases hst : step rf op with
+    | error e => exact ih rf h
+    | ok s' =>
+      obtain ⟨h1, h2⟩ := step_wf rf s' op h hst
+      obtain ⟨h3, h4⟩ := ih s' h1
+      exact ⟨h3, h4.trans h2⟩
 
 /-- `op` cannot change the bits of field `j` of register `i` (given the layout `rf`) -/
 def Untouched (rf : RegFile) (i j : Nat) : Op → Prop
@@ -140,7 +191,91 @@ theorem history_last_write (rf : RegFile) (pre post : List Op) (i j v : Nat) (ra
     (r : Reg) (f : Field) (h : FileWF rf) (hr : rf[i]? = some r) (hf : r.fields[j]? = some f)
     (hv : v >>> f.shift < 2 ^ f.width) (hpost : ∀ op ∈ post, Untouched rf i j op) :
     ∃ r', (run rf (pre ++ [Op.setField i j v raw] ++ post))[i]? = some r' ∧ fieldGet r' f = .ok (stored f v) := by
-  sorry
+  obtain ⟨hwf1, hl1⟩ := run_wf rf pre h
+  obtain ⟨r1, hr1, hk1⟩ := getElem?_of_map_eq (key := fun r : Reg => (r.width, r.fields)) hl1 hr
+  have hf1 : r1.fields = r.fields := (Prod.mk.inj hk1).2
+  have wf1 : RegWF r1 := hwf1 r1 (List.mem_of_getElem? hr1)
+  have hin : f.offset + f.width ≤ r1.width :=
+    wf1.fieldsIn f (hf1 ▸ List.mem_of_getElem? hf)
+  obtain ⟨r2, hs2, hg2⟩ := field_get_set r1 f v raw wf1 hin hv
+  have hi : i < (run rf pre).length := by
+    rcases Nat.lt_or_ge i (run rf pre).length with h | h
+    · exact h
+    · rw [List.getElem?_eq_none h] at hr1; cases hr1
+  have hstep : step (run rf pre) (.setField i j v raw) = .ok ((run rf pre).set i r2) := by
+    simp [step, updAt, hr1, hf1, hf, hs2]
+  obtain ⟨hwf2, hl2⟩ := step_wf _ _ _ hwf1 hstep
+  have hx2 : ∃ r', ((run rf pre).set i r2)[i]? = some r' ∧ fieldGet r' f = .ok (stored f v) :=
+    ⟨r2, by simp [List.getElem?_set, hi], hg2⟩
+  have key : ∀ (post : List Op) (s : RegFile), (∀ op ∈ post, Untouched rf i j op) → FileWF s →
+      layoutOf s = layoutOf rf → (∃ r', s[i]? = some r' ∧ fieldGet r' f = .ok (stored f v)) →
+      ∃ r', (run s post)[i]? = some r' ∧ fieldGet r' f = .ok (stored f v) := by
+    intro post
+    induction post with
+    | nil => intro s _ _ _ hx; simpa [run] using hx
+    | cons op post ih =>
+      intro s hu hwf hl hx
+      have e : run s (op :: post) = run (match step s op with | .ok s' => s' | .error _ => s) post := by
+        simp [run]
+      rw [e]
+      have hu' : ∀ o ∈ post, Untouched rf i j o := fun o ho => hu o (by simp [ho])
+      cases hst : step s op with
+      | error e => exact ih s hu' hwf hl hx
+      | ok s' =>
+        obtain ⟨hwf', hl'⟩ := step_wf s s' op hwf hst
+        refine ih s' hu' hwf' (hl'.trans hl) ?_
+        obtain ⟨rk, hrk, hgk⟩ := hx
+        have hu0 := hu op (by simp)
+        obtain ⟨rk', hrk', hkk⟩ := getElem?_of_map_eq (key := fun r : Reg => (r.width, r.fields)) hl hr
+        rw [hrk] at hrk'; cases hrk'
+        have hfk : rk.fields = r.fields := (Prod.mk.inj hkk).2
+        have wfk : RegWF rk := hwf rk (List.mem_of_getElem? hrk)
+        cases op with
+        | setReg i' v' raw' =>
+          simp only [Untouched] at hu0
+          simp only [step] at hst
+          rw [updAt_getElem?_ne s s' i' i _ hst hu0]; exact ⟨rk, hrk, hgk⟩
+        | resetReg i' =>
+          simp only [Untouched] at hu0
+          simp only [step] at hst
+          rw [updAt_getElem?_ne s s' i' i _ hst hu0]; exact ⟨rk, hrk, hgk⟩
+        | resetAll => exact absurd hu0 (by simp [Untouched])
+        | parse b l => exact absurd hu0 (by simp [Untouched])
+        | setField i' j' v' raw' =>
+          obtain ⟨ra, g, rb, hra, hgj, hfs, hrb, hne⟩ := step_setField_inv s s' i' j' v' raw' hst
+          by_cases hii : i' = i
+          · subst hii
+            rcases hu0 with hne' | ⟨r0, f0, g0, h0, hf0, hg0, hd⟩
+            · exact absurd rfl hne'
+            · rw [hr] at h0; cases h0
+              rw [hf] at hf0; cases hf0
+              rw [hrk] at hra; cases hra
+              rw [hfk, hg0] at hgj; cases hgj
+              have hing : g.offset + g.width ≤ rk.width :=
+                wfk.fieldsIn g (hfk ▸ List.mem_of_getElem? hg0)
+              exact ⟨rb, hrb, (field_frame rk g f v' raw' wfk hing hd rb hfs).trans hgk⟩
+          · rw [hne i hii]; exact ⟨rk, hrk, hgk⟩
+        | setEnum i' j' e' =>
+          obtain ⟨ra, g, ev, rb, hra, hgj, hev, hfs, hrb, hne⟩ := step_setEnum_inv s s' i' j' e' hst
+          by_cases hii : i' = i
+          · subst hii
+            rcases hu0 with hne' | ⟨r0, f0, g0, h0, hf0, hg0, hd⟩
+            · exact absurd rfl hne'
+            · rw [hr] at h0; cases h0
+              rw [hf] at hf0; cases hf0
+              rw [hrk] at hra; cases hra
+              rw [hfk, hg0] at hgj; cases hgj
+              have hing : g.offset + g.width ≤ rk.width :=
+                wfk.fieldsIn g (hfk ▸ List.mem_of_getElem? hg0)
+              exact ⟨rb, hrb, (field_frame rk g f ev false wfk hing hd rb hfs).trans hgk⟩
+          · rw [hne i hii]; exact ⟨rk, hrk, hgk⟩
+  have e : run rf (pre ++ [Op.setField i j v raw] ++ post) = run ((run rf pre).set i r2) post := by
+    simp only [run, List.foldl_append, List.foldl_cons, List.foldl_nil]
+    have := hstep
+    simp only [run] at this
+    rw [this]
+  rw [e]
+  exact key post _ hpost hwf2 (hl2.trans hl1) hx2
 
 /-- a later whole-register write determines every field: the field reads the corresponding bits of the value -/
 theorem history_reg_write (rf : RegFile) (pre : List Op) (i j v : Nat)
@@ -148,7 +283,26 @@ theorem history_reg_write (rf : RegFile) (pre : List Op) (i j v : Nat)
     (hv : v < 2 ^ r.width) :
     ∃ r', (run rf (pre ++ [Op.setReg i v true]))[i]? = some r' ∧
       fieldGet r' f = .ok (((v >>> f.offset) % 2 ^ f.width) <<< f.shift) := by
-  sorry
+  obtain ⟨hwf1, hl1⟩ := run_wf rf pre h
+  obtain ⟨r1, hr1, hk1⟩ := getElem?_of_map_eq (key := fun r : Reg => (r.width, r.fields)) hl1 hr
+  have hw1 : r1.width = r.width := (Prod.mk.inj hk1).1
+  have wf1 : RegWF r1 := hwf1 r1 (List.mem_of_getElem? hr1)
+  have hi : i < (run rf pre).length := by
+    rcases Nat.lt_or_ge i (run rf pre).length with h | h
+    · exact h
+    · rw [List.getElem?_eq_none h] at hr1; cases hr1
+  have hset := set_plain r1 v true wf1.plain wf1.norev (hw1 ▸ hv)
+  have hstep : step (run rf pre) (.setReg i v true) = .ok ((run rf pre).set i { r1 with value := v }) := by
+    simp [step, updAt, hr1, hset]
+  have e : run rf (pre ++ [Op.setReg i v true]) = (run rf pre).set i { r1 with value := v } := by
+    simp only [run, List.foldl_append, List.foldl_cons, List.foldl_nil]
+    have := hstep
+    simp only [run] at this
+    rw [this]
+  rw [e]
+  refine ⟨{ r1 with value := v }, by simp [List.getElem?_set, hi], ?_⟩
+  rw [fieldGet_plain_upd r1 f v wf1.plain wf1.norev]
+  simp [mask]
 
 /-! ## export / parse -/
 
@@ -158,12 +312,14 @@ theorem parse_export (rf rf' : RegFile) (little : Bool) (b : Bytes) (h : FileWF 
     (hl : rf'.map (fun r => { r with value := 0 }) = rf.map (fun r => { r with value := 0 }))
     (he : exportRegs rf little = .ok b) :
     parseAll rf' 0 b little = .ok rf := by
-  sorry
+  have := parseAll_export rf rf' little [] b []
+    (fun r hr => ⟨(h r hr).plain, (h r hr).norev, (h r hr).bound⟩) hl he
+  simpa using this
 
 theorem export_length (rf : RegFile) (little : Bool) (b : Bytes) (h : FileWF rf)
     (he : exportRegs rf little = .ok b) :
     b.length = (rf.map (fun r => r.width / 8)).sum := by
-  sorry
+  exact exportRegs_length rf little b he
 
 /-! ## non-vacuity -/
 
